@@ -75,7 +75,7 @@ func (bb *gcpBalancerBuilder) Build(
 		scStates:         make(map[balancer.SubConn]connectivity.State),
 		refreshingScRefs: make(map[balancer.SubConn]*subConnRef),
 		scRefList:        []*subConnRef{},
-		rrRefId:          ^uint32(0),
+		rrRefId:          ^uint64(0),
 		csEvltr:          &connectivityStateEvaluator{},
 		// Initialize picker to a picker that always return
 		// ErrNoSubConnAvailable, because when state of a SubConn changes, we
@@ -222,6 +222,12 @@ func (ref *subConnRef) getRefreshCnt() uint32 {
 }
 
 type gcpBalancer struct {
+	// Round-robin cursor. 64 bits wide so that it does not wrap around: at the
+	// wrap-around the cycle over the subconns would break for a pool size that is not a
+	// power of two. First in the struct: atomic 64-bit access needs the alignment on
+	// 32-bit platforms.
+	rrRefId uint64
+
 	cfg       *GCPBalancerConfig
 	methodCfg map[string]*pb.AffinityConfig
 
@@ -236,7 +242,6 @@ type gcpBalancer struct {
 	scStates    map[balancer.SubConn]connectivity.State
 	scRefs      map[balancer.SubConn]*subConnRef
 	scRefList   []*subConnRef
-	rrRefId     uint32
 
 	// Map from a fresh SubConn to the subConnRef where we want to refresh subConn.
 	refreshingScRefs map[balancer.SubConn]*subConnRef
@@ -436,7 +441,7 @@ func (gb *gcpBalancer) getSubConnRoundRobin(ctx context.Context) *subConnRef {
 		gb.newSubConn()
 		gb.mu.RLock()
 	}
-	scRef := gb.scRefList[atomic.AddUint32(&gb.rrRefId, 1)%uint32(len(gb.scRefList))]
+	scRef := gb.scRefList[atomic.AddUint64(&gb.rrRefId, 1)%uint64(len(gb.scRefList))]
 
 	if state := gb.scStates[scRef.subConn]; state == connectivity.Ready {
 		gb.mu.RUnlock()
